@@ -64,7 +64,12 @@ def check_bookkeeping(sel, fam, X, y, n_to_select, thr, tag, scores_log=None, k0
     if len(set(idx.tolist())) != len(idx):
         exhausted = scores_log is not None and any(s <= 1e-12 * max(1.0, scores_log[0] if np.isfinite(scores_log[0]) else 1.0) for s in scores_log)
         first_dup = next(t for t in range(len(idx)) if idx[t] in idx[:t].tolist())
-        if fam[0] in ('CUR', 'PCovCUR') and first_dup >= np.linalg.matrix_rank(X, tol=1e-9 * max(1.0, np.abs(X).max())): exhausted = True    # residual exhausted: singular vectors of a zero matrix are arbitrary
+        if fam[0] in ('CUR', 'PCovCUR'):
+            M_ = X
+            if fam[0] == 'PCovCUR' and y is not None:
+                try: M_ = pcov_D(('PCovFPS', fam[1]), X, y, getattr(sel, 'mixing', 0.5))      # the scores are leverage scores of the PCovR-modified Gram/covariance matrix
+                except Exception: M_ = X
+            if first_dup >= np.linalg.matrix_rank(M_, tol=1e-9 * max(1.0, np.abs(M_).max())): exhausted = True    # residual exhausted: singular vectors of a zero matrix are arbitrary
         if fam[0] in ('CUR', 'PCovCUR') and np.min(np.linalg.norm(X, axis=(0 if fam[1] == 'feature' else 1))) < 1e-10: exhausted = True    # slice norm below the absolute tolerance
         expect(False, sig('post[C01]:indices-pairwise-distinct' + ('@scores-exhausted' if exhausted else '@scores-positive') + sfx), f"{idx.tolist()} pick scores {scores_log}")
     take = np.take(X, idx, axis=ax)
